@@ -23,10 +23,24 @@ def main():
     chk = vlib.Check(args.prop, args.tier, args.seed)
     try:
         chk.run_proofs()
-        if args.replay:
-            mod.replay(chk, args.replay)
-        else:
-            mod.run(chk)
+        try:
+            if args.replay:
+                mod.replay(chk, args.replay)
+            else:
+                mod.run(chk)
+        except vlib.Infrastructure:
+            raise
+        except Exception:
+            # The correspondence itself broke down on this tree: the harness could not process what the implementation
+            # did (an output of a kind no generated case of the unchanged tree ever produces).  The property is then no
+            # longer SHOWN to hold - report it as such (no concrete failing input), naming the correspondence, instead of
+            # ending without a verdict.  Build / tool failures (vlib.Infrastructure) stay harness errors.
+            tb = traceback.format_exc()
+            print(tb, file=sys.stderr)
+            chk.report({"what": f"correspondence corr:{args.prop} broke down: the harness could not process the "
+                                "implementation's behaviour on a generated case (see traceback)",
+                        "correspondence": f"corr:{args.prop} (harness/props/{args.prop.lower()}.py)",
+                        "traceback": tb[-4000:]}, no_failing_input=True)
         rc = chk.finish()
     except Exception:
         traceback.print_exc()
